@@ -13,10 +13,10 @@ import (
 
 func init() {
 	register(&Property{
-		ID:      "C20",
-		NeedSSA: true,
-		Decided: "Structural necessary conditions for history independence of the codecs: (dst) in every Encode/Decode method under compress/ the reusable output buffer is only truncated (dst[:0]), measured with cap(), passed to a helper obeying the same rule or to a listed library routine that treats it as scratch, or returned — its previous length and content are never observed and it is never re-sliced up to its old capacity; (pool) an object taken from a pool is not used after it was put back, an object that received Close is put back only after a Reset, the reset closure given to Pool.Get re-targets the stream, and a reader whose Reset failed is dropped instead of pooled; (stateless) Encode/Decode of every compress.Codec implementation write no field of the codec value (shared by all writers and readers) other than its pools; (tables) each entry of the codec table is the implementation whose CompressionCodec() returns its key.",
-		NotDecided: "losslessness; the behaviour of the third-party compressors; sizing arithmetic of output buffers (for instance the worst-case bound an LZ4 block needs).",
+		ID:          "C20",
+		NeedSSA:     true,
+		Decided:     "Structural necessary conditions for history independence of the codecs: (dst) in every Encode/Decode method under compress/ the reusable output buffer is only truncated (dst[:0]), measured with cap(), passed to a helper obeying the same rule or to a listed library routine that treats it as scratch, or returned — its previous length and content are never observed and it is never re-sliced up to its old capacity; (pool) an object taken from a pool is not used after it was put back, an object that received Close is put back only after a Reset, the reset closure given to Pool.Get re-targets the stream, and a reader whose Reset failed is dropped instead of pooled; (stateless) Encode/Decode of every compress.Codec implementation write no field of the codec value (shared by all writers and readers) other than its pools; (tables) each entry of the codec table is the implementation whose CompressionCodec() returns its key.",
+		NotDecided:  "losslessness; the behaviour of the third-party compressors; sizing arithmetic of output buffers (for instance the worst-case bound an LZ4 block needs).",
 		Assumptions: []string{"the listed library routines (snappy, lz4, zstd EncodeAll/DecodeAll) treat dst as scratch per their documentation"},
 		Run:         runC20,
 	})
@@ -208,47 +208,58 @@ func poolRule(c *Ctx, rule string, pkgPrefixes []string) {
 	}
 	c.Stats[rule+".put_sites"] = nput
 	c.Stats[rule+".get_sites"] = nget
+	poolDetachRule(c, rule, isGet, isPut)
 	// the decompressor drops a reader whose Reset failed
 	if obj := p.LookupFunc("compress.(*Decompressor).Decode"); obj != nil {
 		fn := p.SSAFunc(obj)
 		ok := false
-		allCalls(fn, true, func(in *ssa.Function, call ssa.CallInstruction) {
-			if !isPut(call) {
-				return
-			}
-			// dominated by the nil edge of a Reset error test
-			for _, b := range in.Blocks {
-				if len(b.Instrs) == 0 {
-					continue
-				}
-				ifi, isIf := b.Instrs[len(b.Instrs)-1].(*ssa.If)
-				if !isIf {
-					continue
-				}
-				bo, isB := ifi.Cond.(*ssa.BinOp)
-				if !isB || !(isNilConst(bo.X) || isNilConst(bo.Y)) {
-					continue
-				}
-				fromReset := false
-				for _, side := range []ssa.Value{bo.X, bo.Y} {
-					for _, o := range Origins(side, OriginOpts{}) {
-						if o.Kind == OrgCall && strings.HasSuffix(calleeName(o.Call), ".Reset") {
-							fromReset = true
-						}
-					}
-				}
-				if !fromReset {
-					continue
-				}
-				nilEdge := b.Succs[0]
-				if bo.Op == token.NEQ {
-					nilEdge = b.Succs[1]
-				}
-				if nilEdge.Dominates(call.Block()) {
-					ok = true
-				}
+		// the cleanup may live in the function, in a deferred closure, or in a
+		// method it calls
+		scope := []*ssa.Function{fn}
+		allCalls(fn, true, func(_ *ssa.Function, call ssa.CallInstruction) {
+			if sc := call.Common().StaticCallee(); sc != nil && inModule(sc) && sc.Blocks != nil && fnPkgPath(sc) == fnPkgPath(fn) {
+				scope = append(scope, sc)
 			}
 		})
+		for _, sf := range scope {
+			allCalls(sf, true, func(in *ssa.Function, call ssa.CallInstruction) {
+				if !isPut(call) {
+					return
+				}
+				// dominated by the nil edge of a Reset error test
+				for _, b := range in.Blocks {
+					if len(b.Instrs) == 0 {
+						continue
+					}
+					ifi, isIf := b.Instrs[len(b.Instrs)-1].(*ssa.If)
+					if !isIf {
+						continue
+					}
+					bo, isB := ifi.Cond.(*ssa.BinOp)
+					if !isB || !(isNilConst(bo.X) || isNilConst(bo.Y)) {
+						continue
+					}
+					fromReset := false
+					for _, side := range []ssa.Value{bo.X, bo.Y} {
+						for _, o := range Origins(side, OriginOpts{}) {
+							if o.Kind == OrgCall && strings.HasSuffix(calleeName(o.Call), ".Reset") {
+								fromReset = true
+							}
+						}
+					}
+					if !fromReset {
+						continue
+					}
+					nilEdge := b.Succs[0]
+					if bo.Op == token.NEQ {
+						nilEdge = b.Succs[1]
+					}
+					if nilEdge.Dominates(call.Block()) {
+						ok = true
+					}
+				}
+			})
+		}
 		c.Check(rule, "Decompressor.Decode pools a reader only when its Reset succeeded", fn.Pos(), ok, "a reader left in a failed state by the previous (possibly corrupt) input is returned to the pool and handed to the next Decode")
 	}
 	c.Min(rule, 6)
@@ -328,4 +339,121 @@ func c20Stateless(c *Ctx) {
 	}
 	c.Stats[rule+".methods"] = n
 	c.Min(rule, 10)
+}
+
+// poolDetachRule: a function that returns memory held in a field of a pooled
+// object (w.output.Bytes()) and puts the object back must give the field new
+// storage before the Put, in the function (or deferred closure) that performs
+// it: otherwise the next user of the pooled object writes into the bytes the
+// previous caller still holds.
+func poolDetachRule(c *Ctx, rule string, isGet, isPut func(ssa.CallInstruction) bool) {
+	p := c.P
+	n := 0
+	for _, fn := range p.ModuleSSAFuncs() {
+		if fn.Origin() != nil || fn.Parent() != nil || fn.Blocks == nil {
+			continue
+		}
+		var gets []*ssa.Call
+		allCalls(fn, false, func(_ *ssa.Function, call ssa.CallInstruction) {
+			if gv, ok := call.(*ssa.Call); ok && isGet(call) {
+				gets = append(gets, gv)
+			}
+		})
+		if len(gets) == 0 {
+			continue
+		}
+		for _, gv := range gets {
+			// fields of the pooled object whose memory is returned
+			leaked := map[*types.Var]token.Pos{}
+			for _, ret := range returnsOf(fn) {
+				for i := range ret.Results {
+					rv, _ := retResult(ret, i)
+					if rv == nil {
+						continue
+					}
+					if _, isSlice := rv.Type().Underlying().(*types.Slice); !isSlice {
+						continue
+					}
+					for _, o := range Origins(rv, OriginOpts{}) {
+						var through ssa.Value
+						switch o.Kind {
+						case OrgCall:
+							cc := o.Call.Common()
+							if !cc.IsInvoke() && cc.StaticCallee() != nil && cc.StaticCallee().Signature.Recv() != nil && len(cc.Args) > 0 {
+								through = cc.Args[0]
+							}
+						case OrgField:
+							if u, ok := o.Val.(*ssa.UnOp); ok {
+								through = u.X
+							}
+						}
+						if through == nil || !derivesFromCallResult(through, gv, map[ssa.Value]bool{}) {
+							continue
+						}
+						if fs, _, _ := fieldChain(through); len(fs) > 0 {
+							if _, dup := leaked[fs[0]]; !dup {
+								leaked[fs[0]] = ret.Pos()
+								if !ret.Pos().IsValid() {
+									leaked[fs[0]] = gv.Pos()
+								}
+							}
+						}
+					}
+				}
+			}
+			if len(leaked) == 0 {
+				continue
+			}
+			// the functions performing the Put
+			type putSite struct {
+				in   *ssa.Function
+				call ssa.CallInstruction
+			}
+			var puts []putSite
+			allCalls(fn, true, func(in *ssa.Function, call ssa.CallInstruction) {
+				if isPut(call) {
+					puts = append(puts, putSite{in, call})
+				}
+			})
+			var fields []*types.Var
+			for f := range leaked {
+				fields = append(fields, f)
+			}
+			sort.Slice(fields, func(i, j int) bool { return fields[i].Name() < fields[j].Name() })
+			for _, f := range fields {
+				n++
+				ok := len(puts) > 0
+				for _, ps := range puts {
+					replaced := false
+					allInstrs(ps.in, false, func(_ *ssa.Function, ins ssa.Instruction) {
+						st, isSt := ins.(*ssa.Store)
+						if !isSt {
+							return
+						}
+						fs, _, elem := fieldChain(st.Addr)
+						if len(fs) == 0 || elem || fs[len(fs)-1] != f {
+							return
+						}
+						for _, o := range Origins(st.Val, OriginOpts{}) {
+							if o.Kind == OrgField && o.Field == f {
+								return
+							}
+						}
+						if st.Block() == ps.call.Block() || st.Block().Dominates(ps.call.Block()) {
+							replaced = true
+						}
+					})
+					if !replaced {
+						ok = false
+					}
+				}
+				if len(puts) == 0 {
+					ok = true // never pooled again
+				}
+				c.Check(rule, FuncKey(fn)+": "+p.FieldName(f)+" is given new storage before the pooled object is put back", leaked[f], ok,
+					FuncKey(fn)+" returns memory held in "+p.FieldName(f)+" of a pooled object and puts the object back without replacing that field: the next user of the pooled object appends into the bytes this caller still holds")
+			}
+		}
+	}
+	c.Stats[rule+".pooled_outputs_returned"] = n
 }
